@@ -352,3 +352,54 @@ Proof.
     - rewrite Ews, map_map. reflexivity. }
   rewrite Hsame. rewrite is_prefix_refl. cbn [andb]. apply Nat.eqb_refl.
 Qed.
+
+(* ---- what holds after the scheduled phase of any case, crash points or not ---- *)
+Lemma run_conc_facts m cp p0 hc0 c0 pre limits progs sched stops R1 o1 cfg1 counts tr1 fuel cfg2 tr2 :
+  seq_domain cp p0 hc0 c0 pre -> Forall (Forall wreq_ok) progs ->
+  p0 + 2 * cp * (Z.of_nat (length pre) + Z.of_nat (length (concat progs)) + 1) <= two62 ->
+  run m (init cp p0 hc0 c0) pre = (R1, o1) ->
+  run_sched m (start R1 limits progs) (repeat 0 (S (length progs))) stops sched = (cfg1, counts, tr1) ->
+  drain m fuel cfg1 counts stops O (S (length progs)) = (cfg2, tr2) ->
+  let cfg0 := start R1 limits progs in
+  let lo := r_hc R1 in
+  wf R1 /\ r_cap R1 = cp /\
+  (exists s1, check_to cp (mkOst [] p0 p0 []) pre o1 = Some s1 /\ o_q s1 = abs R1) /\
+  last_ht p0 o1 = (r_head R1, r_tail R1) /\
+  Inv lo cfg0 /\ LogInv cfg0 /\ steps lo m cfg0 (tr1 ++ tr2) cfg2 /\
+  Inv lo cfg2 /\ LogInv cfg2 /\ ClInv cfg2 (claims_rev cp (tr1 ++ tr2) []) /\
+  positions_ok cp (tr1 ++ tr2) (r_head R1) (r_tail R1) = true /\
+  C07Oracle.trace_ht cp (tr1 ++ tr2) (r_head R1) (r_tail R1) = (r_head (g_ring cfg2), r_tail (g_ring cfg2)) /\
+  r_cap (g_ring cfg2) = cp /\ grows cfg0 cfg2 /\ map p_prog (g_prods cfg2) = progs.
+Proof.
+  intros Dseq Dprogs Dwin E1 E2 E3. cbn zeta.
+  pose proof Dseq as (Hc & Hh & H8 & Hi64 & Hb & Hok).
+  pose proof (cap_ok_range _ Hc) as Hcr.
+  assert (L : Z.of_nat (length pre) < two64) by (unfold two62, two64 in *; nia).
+  destruct (run_ok m c0 pre (init cp p0 hc0 c0) (mkOst [] p0 p0 []) 0
+              (wf_init _ _ _ _ Hc Hh H8) (rel_init _ _ _ _ Hi64) Hb Hok L) as (W1 & Ecap1 & s1 & C1 & Rel1).
+  pose proof (run_tail_bound m c0 pre (init cp p0 hc0 c0) (mkOst [] p0 p0 []) 0
+              (wf_init _ _ _ _ Hc Hh H8) (rel_init _ _ _ _ Hi64) Hb Hok L) as Tb1.
+  rewrite E1 in W1, Ecap1, C1, Rel1, Tb1. cbn [fst snd init r_cap r_tail] in W1, Ecap1, C1, Rel1, Tb1.
+  destruct Rel1 as [Rq Rh Rt _].
+  assert (Hht1 : last_ht p0 o1 = (r_head R1, r_tail R1)).
+  { rewrite last_ht_fold. pose proof (run_ht m pre (init cp p0 hc0 c0) (p0, p0) ltac:(left; reflexivity)) as H. rewrite E1 in H. exact H. }
+  set (cfg0 := start R1 limits progs) in *.
+  set (lo := r_hc R1).
+  assert (HI0 : Inv lo cfg0) by (apply inv_start; [exact W1 | exact Dprogs | rewrite Ecap1; nia]).
+  assert (HL0 : LogInv cfg0) by (apply loginv_start; assumption).
+  assert (HC0 : ClInv cfg0 []) by (apply clinv_start; assumption).
+  pose proof (kinv_start R1 limits progs) as HK0.
+  pose proof (potential_start R1 limits progs ltac:(lia)) as HP0. fold cfg0 in HK0, HP0.
+  pose proof (usteps_app m _ _ _ _ _ (run_sched_usteps m stops _ _ _ _ _ _ E2) (drain_usteps m stops _ _ _ _ _ _ _ E3)) as HU.
+  fold cfg0 in HU.
+  destruct (usteps_steps lo m cfg0 (tr1 ++ tr2) cfg2 HI0 HK0 ltac:(unfold cfg0, start; cbn [g_ring]; unfold cfg0, start in HP0; cbn [g_ring] in HP0; rewrite Ecap1 in *; nia) HU)
+    as (HS & _ & _ & Ecap2).
+  destruct (steps_claims lo m cfg0 (tr1 ++ tr2) cfg2 [] HI0 HL0 HS HC0) as (HC2 & HL2 & HI2).
+  destruct (steps_positions lo m cfg0 (tr1 ++ tr2) cfg2 HI0 HS) as (Hpos & Htr & _).
+  pose proof (steps_grows lo m cfg0 (tr1 ++ tr2) cfg2 HI0 HS) as G.
+  pose proof (steps_progs lo m cfg0 (tr1 ++ tr2) cfg2 HI0 HS) as Hprogs. unfold cfg0 in Hprogs. rewrite start_progs in Hprogs.
+  unfold cfg0, start in Hpos, Htr, HC2, Ecap2. cbn [g_ring] in Hpos, Htr, HC2, Ecap2. rewrite Ecap1 in Hpos, Htr, HC2, Ecap2.
+  split; [exact W1 |]. split; [exact Ecap1 |]. split; [exists s1; split; assumption |]. split; [exact Hht1 |].
+  split; [exact HI0 |]. split; [exact HL0 |]. split; [exact HS |]. split; [exact HI2 |]. split; [exact HL2 |]. split; [exact HC2 |].
+  split; [exact Hpos |]. split; [exact Htr |]. split; [exact Ecap2 |]. split; [exact G | exact Hprogs].
+Qed.
